@@ -519,7 +519,12 @@ func c06Predicates(e *Env) {
 	}
 }
 
-func phiLeaves(v ssa.Value) []ssa.Value {
+func phiLeaves(v ssa.Value) []ssa.Value { return phiLeavesOpt(v, false) }
+
+// phiLeavesCells also looks through result cells (named results of a function with defers): the values stored into them.
+func phiLeavesCells(v ssa.Value) []ssa.Value { return phiLeavesOpt(v, true) }
+
+func phiLeavesOpt(v ssa.Value, cells bool) []ssa.Value {
 	seen := map[ssa.Value]bool{}
 	var out []ssa.Value
 	var walk func(x ssa.Value)
@@ -559,7 +564,7 @@ func phiLeaves(v ssa.Value) []ssa.Value {
 			}
 		}
 		// a load of a result cell (named results with defers): the values stored into it
-		if ld, ok := x.(*ssa.UnOp); ok && ld.Op == token.MUL {
+		if ld, ok := x.(*ssa.UnOp); ok && cells && ld.Op == token.MUL {
 			if a, isA := ld.X.(*ssa.Alloc); isA && !core.CellEscapes(a) {
 				sts := core.StoresToCell(a)
 				if len(sts) > 0 {
